@@ -31,6 +31,11 @@ CHECKS = {
     text="Two-branch block universes over a 5-transaction universe (in-block chains, the same tx re-committed across the fork, conflicting spends of a cell created on both branches, uncles, forks straddling the epoch boundary) are generated exhaustively within the bound; every topological interleaving of the branches (with a truncation at every position for the designed universes) is executed on a fresh real node; after every step all canonical columns of the store and of the published snapshot are compared byte-for-byte with an independent from-genesis replay, and the final state with a node that only saw the final main chain.",
     note="Trusted: flat-difficulty world, always-success scripts, RefChain (plain maps + molecule encoders + external MMR library), RocksDB; received_at masked; cycles compared differentially.",
     design="DESIGN.md §5 C02"),
+ "C07": dict(engine="seq", category="exploration",
+    technique="exhaustive enumeration of finite boundary lattices of the pure consensus arithmetic (all 2^32 compact values in thorough), judged by an exact big-integer reference of the RFC formulas",
+    text="next_epoch_ext is evaluated on the complete cartesian grid of epoch statistics placed on every clamp / truncation boundary (length, uncle count, duration incl. sub-second, difficulty up to 2^200, previous hash rate around both factor-two clamps) and compared with the RFC 0020 formula in exact rational arithmetic (length bounds, difficulty, adjusted hash rate, chaining). Block rewards are summed for every epoch length 1..1800 x reward schedule x every block index, the halving schedule for 70 halvings; the EpochNumberWithFraction successor relation on all small values; compact/target/difficulty laws on 256 exponents x 11 mantissas (quick) or all 2^32 compact values (thorough); Eaglesong acceptance against an independent comparison.",
+    note="Exhaustive over the stated lattices, not over the 2^64/2^256 value space between lattice points; reference results that do not fit U256 are skipped; Eaglesong itself is trusted.",
+    design="DESIGN.md §5 C07"),
  "C08": dict(engine="crash", category="fault_enumeration",
     technique="exhaustive crash-point enumeration: a child process runs each import history and is killed before its N-th database write for every N; real restart path + C02 reference replay + convergence check; depth-2 crashes during recovery (thorough)",
     text="For each history (reorgs, an invalid block in the middle of the otherwise winning branch, children delivered before parents, sequential and burst delivery) a child process is killed (_exit) immediately before every one of its database writes (boot-time writes included); the parent re-opens the directory through SharedBuilder/InitLoadUnverified and requires: it opens, store and snapshot equal a from-genesis replay of the recovered main chain, every stored block that can be verified gets its record again, the tip is maximal among stored fully valid chains, and after redelivery the state equals the crash-free run. Thorough additionally kills the recovery itself at every one of its writes.",
